@@ -81,6 +81,43 @@ CLAIMED["C19"] = dict(category="model_checking",
          "different from running alone is the violation.",
     design="6/C19", technique="TLA+ access-level model + TLC NoRace; TLC-exported operation multisets executed under Go's race detector",
     note="Absence of races in code is sampled by the race detector on real schedules (25-200 repetitions per multiset); the model decides the sharing design exhaustively.")
+CHAIN_NOTE = ("Trusted: TLC, crypto/ed25519, the harness' own protowire codec. Signatures are symbolic terms (no collisions); contents are two fixed "
+              "block contents. Bounds: <=2 (quick) / 3 (thorough) honest operations before hand-over, attacker tokens of <=2 slots, honest "
+              "histories of <=3/4 operations for the id / revocation / seal properties.")
+CLAIMED["C01"] = dict(category="model_checking",
+    text="Chain.tla is a symbolic Dolev-Yao model of the signature chain: honest Build/Append/Seal, hand-over of any subset of honest tokens, "
+         "an attacker that assembles tokens slot by slot from every content, key and signature it knows or can make with a known secret, and "
+         "any proof. TLC checks Completeness and Unforgeability (an accepted attacker token extends a token it was handed; a sealed token is "
+         "final) and finds attacks when the signature does not cover the next key or the proof is unchecked. Every exported attacker token "
+         "(265k quick-model tokens; all accepting ones + a 60k/600k seeded sample) is materialised on real bytes with an independent codec "
+         "and replayed: Unmarshal+AuthorizerFor must accept iff Chain!Verify.",
+    design="6/C01", technique="TLA+ symbolic attacker model + TLC (Unforgeability); spec->code replay of attacker tokens built on the wire bytes",
+    note=CHAIN_NOTE)
+CLAIMED["C09"] = dict(category="model_checking",
+    text="Chain.tla SealPreserves and the Append/Seal guards over all honest histories; seal mutations are the attacker syntheses of C01 on "
+         "given sealed tokens (Unforgeability: final). Replay: sealed twins keep content, revocation ids and verification, refuse Append/Seal "
+         "before and after reload; the Authz instances are authorized with sealed (and sealed+reloaded) tokens and must give the model's verdicts.",
+    design="6/C09", technique="TLA+ chain model + TLC (SealPreserves, Unforgeability on sealed tokens); spec->code replay incl. sealed Authz instances",
+    note=CHAIN_NOTE)
+CLAIMED["C16"] = dict(category="model_checking",
+    text="Chain.tla IdPreserved and LookupExact over all honest histories with identifiers {absent, 7, 2^32-1, 0} and five key maps; refuted for "
+         "the pinned tree's Append/Seal. Replay compares RootKeyID() along every derivation and the outcome class of each lookup "
+         "(ok / ErrNoPublicKeyAvailable / signature error) with the model.",
+    design="6/C16", technique="TLA+ chain model + TLC (IdPreserved, LookupExact); spec->code replay of all honest histories x key maps",
+    note=CHAIN_NOTE)
+CLAIMED["C17"] = dict(category="model_checking",
+    text="Chain.tla RevPerBlock / RevPrefix / RevUnique over all honest histories (identical contents on same and different tokens). Replay "
+         "with fresh randomness: one id per block, equal to the signature an independent decoder finds, parent's ids as prefix, pairwise "
+         "distinct across signing operations.",
+    design="6/C17", technique="TLA+ chain model + TLC; spec->code replay with independently decoded signatures",
+    note=CHAIN_NOTE)
+CLAIMED["C20"] = dict(category="fault_enumeration",
+    text="Entropy.tla enumerates the complete fault space of the random source (4 operations x failure after k=0..32 bytes x 4 failure kinds x "
+         "3 read sizes), TLC checks NoDegenerateKey / ErrorIffFault / termination and exports each case; every case is executed with a "
+         "fault-injecting io.Reader in a worker process; outcome must be (nil, error) for k<32 and a verifying token with the key derived "
+         "from the delivered bytes for k=32.",
+    design="6/C20", technique="TLA+ fault-space model + TLC; exhaustive fault injection replay",
+    note="Trusted: TLC; crypto/ed25519.GenerateKey reads exactly 32 bytes (self-calibrated at run time).")
 CLAIMED["C18"] = dict(category="model_checking",
     text="Lifecycle.tla models SerializePolicies/LoadPolicies; TLC checks SnapshotEquiv and SaveRefusedIffEvaluated over all histories "
          "(3x3 tokens x 24 contents x evaluated/unevaluated) and exports them; replay saves on the real authorizer, loads into a fresh one "
